@@ -305,10 +305,21 @@ def _dominators(n, succ, pred, entry, reach):
     return dom
 
 
+FIXTURE_NAMES = {'Reader': 'read::reader::Reader', 'DebugStrOffset': 'common::DebugStrOffset', 'Error': 'read::Error'}
+
+
 class Facts:
-    def __init__(self, path):
+    def __init__(self, path, strip_prefix=None):
         with open(path) as f:
-            raw = json.load(f)
+            text = f.read()
+        if strip_prefix:
+            # the fixture crate sees gimli's items through the crate-root re-exports (`gimli::Reader`);
+            # normalise the handful of names the fixture uses to gimli's own definition paths
+            text = text.replace(strip_prefix, '')
+            for short, full in FIXTURE_NAMES.items():
+                text = text.replace('"%s::' % short, '"%s::' % full).replace('"%s"' % short, '"%s"' % full)
+                text = text.replace('<%s as ' % short, '<%s as ' % full).replace(' as %s>' % short, ' as %s>' % full)
+        raw = json.loads(text)
         self.raw = raw
         self.crate = raw['crate']
         self.features = raw['features']
